@@ -39,6 +39,13 @@ GF == [
   vf  |-> [kind |-> "vmap", callee |-> "f2", n |-> 2, bcast |-> FALSE],
   fvf |-> [kind |-> "fn", sites |-> << Site("v", "vf", <<"seq", Arg, Add(Arg, Cn(2))>>), Site("z", "d1", <<"sum", Val("v")>>) >>,
            ret |-> Val("z")],
+  \* an array-valued (batch-shaped) address: ONE site whose value is a vector, log density = sum over coordinates.
+  \* Semantically the product of independent coordinates (so the spec treats it as a 2-lane map); the harness builds it as a
+  \* single distribution call with vector parameters (as_site).
+  bd  |-> [kind |-> "vmap", callee |-> "d0", n |-> 2, bcast |-> FALSE, as_site |-> TRUE],
+  fb  |-> [kind |-> "fn", sites |-> << Site("a", "d1", Arg), Site("v", "bd", <<"seq", Val("a"), Add(Val("a"), Cn(1))>>),
+                                        Site("z", "d0", <<"sum", Val("v")>>) >>,
+           ret |-> Add(Val("z"), <<"sum", Val("v")>>)],
   \* repeat (in_axes=None)
   rd  |-> [kind |-> "vmap", callee |-> "d1", n |-> 2, bcast |-> TRUE],
   fr  |-> [kind |-> "fn", sites |-> << Site("r", "rd", Arg), Site("y", "d0", <<"sum", Val("r")>>) >>,
